@@ -34,6 +34,8 @@ PURE_EXTERNAL = {
     "OrderedDict.__init__", "OrderedDict.__contains__", "OrderedDict.__getitem__", "OrderedDict.__class__",
     # construction of a repo class that defines no __init__ (dataclasses): stores references, mutates nothing
     "object.__init__",
+    # a typing.NamedTuple subclass: an immutable tuple of references to its arguments
+    "NamedTuple.__init__", "NamedTuple.__new__", "NamedTuple._asdict", "NamedTuple._replace",
 }
 
 
@@ -91,6 +93,10 @@ class Effects:
                 return cs
         return None
 
+    def _callsites(self, q: str, call: ast.Call) -> list:
+        """All resolutions of one call (several when the callee comes out of a dispatch table)."""
+        return [cs for cs in self.facts.calls.get(q, []) if cs.node is call]
+
     def roots(self, q: str, expr: ast.AST, derived: dict[str, set], params: set) -> set:
         """Parameters the value of ``expr`` may alias or be part of."""
         if isinstance(expr, ast.Name):
@@ -122,26 +128,28 @@ class Effects:
         if isinstance(expr, ast.Call):
             f = expr.func
             d = dotted(f)
-            cs = self._callsite(q, expr)
+            css = self._callsites(q, expr)
+            cs = css[0] if css else None
             if cs is not None and cs.target:
-                callee = self.sum.get(cs.target)
-                tfn = self.fns.get(cs.target)
-                if callee is None or tfn is None:
-                    return set()
                 out = set()
-                is_ctor = cs.target.endswith(".__init__")
-                bound = self._bind(cs, expr, tfn)
-                for p, a in bound.items():
-                    if a is None:
+                for cs in css:
+                    callee = self.sum.get(cs.target)
+                    tfn = self.fns.get(cs.target)
+                    if callee is None or tfn is None:
                         continue
-                    if p in callee.returns:
-                        out |= self.roots(q, a, derived, params)
-                    elif is_ctor and self._is_dict_class(cs.target):
-                        out |= {r if r.endswith("*") else r + "*" for r in self.roots(q, a, derived, params)}
+                    is_ctor = cs.target.endswith(".__init__")
+                    bound = self._bind(cs, expr, tfn)
+                    for p, a in bound.items():
+                        if a is None:
+                            continue
+                        if p in callee.returns:
+                            out |= self.roots(q, a, derived, params)
+                        elif is_ctor and self._is_dict_class(cs.target):
+                            out |= {r if r.endswith("*") else r + "*" for r in self.roots(q, a, derived, params)}
                 return out
             if isinstance(f, ast.Attribute) and f.attr in PART_OF:
                 return self.roots(q, f.value, derived, params)
-            if cs is not None and cs.external == "object.__init__":
+            if cs is not None and cs.external in ("object.__init__", "NamedTuple.__init__"):
                 # a repo class without __init__ (e.g. a @dataclass): the new object holds its arguments
                 out = set()
                 for a in list(expr.args) + [k.value for k in expr.keywords]:
@@ -162,6 +170,9 @@ class Effects:
         is_method = cs.target.count(".") == 2
         decos = [dotted(d) for d in tfn.decorator_list]
         skip = is_method and "staticmethod" not in decos
+        if getattr(cs, "explicit_self", False):
+            # a plain function object taken from a class-level table: self is the first positional argument
+            return bind_args(call, tfn, skip_self=False)
         b = bind_args(call, tfn, skip_self=skip)
         if skip and isinstance(call.func, ast.Attribute):
             params = [p.arg for p in tfn.args.args]
@@ -337,7 +348,7 @@ class Effects:
                     d = dotted(base)
                     if d and d.startswith("self.") :
                         self_writes.setdefault(d.split(".")[1], []).append(n)
-                if cs and cs.target and cs.target in self.sum:
+                for cs in [c for c in self._callsites(q, n) if c.target and c.target in self.sum]:
                     callee = self.sum[cs.target]
                     tfn = self.fns[cs.target]
                     bound = self._bind(cs, n, tfn)
@@ -366,8 +377,9 @@ class Effects:
                                                 redundant = True
                                     if not redundant:
                                         new_sites.setdefault(pp, {})[k2] = s2
-                    for w in callee.global_writes:
-                        pass
+                cs = self._callsite(q, n)
+                if cs and cs.target and cs.target in self.sum:
+                    pass
                 elif cs is not None and not cs.target:
                     name = cs.external or cs.text
                     short = name.split(".")[-1] if name else ""
